@@ -72,6 +72,16 @@ Proof.
 Qed.
 Print Assumptions C15_dump_replaces_the_file.
 
+(* ... and the loaded document IS the file: GetCache hands json.Unmarshal the whole file whatever its size (regenerated from the
+   source, Gen/FileWrite.v); read through a limit, a fixed buffer or a single Read, a large cache would come back as a prefix,
+   i.e. as a file left by a crash while saving: rejected, and every template in it forgotten *)
+Theorem C15_load_reads_the_whole_file : forall p how w, In (p, how, w) Gen.FileWrite.load_read -> w = true.
+Proof.
+  intros p how w Hin. unfold Gen.FileWrite.load_read in Hin. cbn [In] in Hin.
+  repeat (destruct Hin as [Hin|Hin]; [injection Hin as _ _ <-; reflexivity|]). contradiction.
+Qed.
+Print Assumptions C15_load_reads_the_whole_file.
+
 Theorem C15_replacing_write_leaves_the_document : forall old new, FileStore.write_file true old new = new.
 Proof. exact FileStoreProofs.write_truncating. Qed.
 Print Assumptions C15_replacing_write_leaves_the_document.
